@@ -235,7 +235,21 @@ impl Check for C19 {
         // ---- fault-free run
         write_tree(&dir, &tree.files);
         let before = snapshot(&dir);
+        let mtimes = |d: &Path| -> BTreeMap<String, std::time::SystemTime> {
+            tree.files
+                .keys()
+                .filter(|k| !k.ends_with('/') && !tree.notes.contains_key(*k))
+                .filter_map(|k| std::fs::metadata(d.join(k)).and_then(|m| m.modified()).ok().map(|t| (k.clone(), t)))
+                .collect()
+        };
+        let m0 = mtimes(&dir);
+        std::thread::sleep(std::time::Duration::from_millis(15));
         let base = run_iwe(&dir, None, None, &log);
+        for (k, t) in mtimes(&dir) {
+            if m0.get(&k) != Some(&t) {
+                rep.violate("non-note-touched", "fault-free", format!("{}: modification time changed", k), replay.clone());
+            }
+        }
         rep.count("events", 1);
         if !base.status.contains("exit status: 0") {
             rep.violate("normalize-failed", "fault-free", format!("iwe normalize: {}", base.status), replay.clone());
